@@ -3,10 +3,11 @@
 set -e
 id=$1; lc=$(echo $id | tr 'C' 'c'); n=${id:1}
 w=/work/$id/verif
-rsync -a --delete --exclude '*.vo' --exclude '*.vok' --exclude '*.vos' --exclude '*.glob' --exclude '.*.aux' $w/coq/$id/ /verif/coq/$id/
-find /verif/coq/$id -name "*.v" -exec touch {} +
-cp $w/harness/$lc.py /verif/harness/
-[ -f $w/harness/tables/t$n.py ] && cp $w/harness/tables/t$n.py /verif/harness/tables/
-[ -f $w/findings/$id.json ] && cp $w/findings/$id.json /verif/findings/
-[ -d $w/corpus/$id ] && rsync -a $w/corpus/$id/ /verif/corpus/$id/
+D=${DEST:-/verif}
+rsync -a --delete --exclude '*.vo' --exclude '*.vok' --exclude '*.vos' --exclude '*.glob' --exclude '.*.aux' $w/coq/$id/ $D/coq/$id/
+find $D/coq/$id -name "*.v" -exec touch {} +
+cp $w/harness/$lc.py $D/harness/
+[ -f $w/harness/tables/t$n.py ] && cp $w/harness/tables/t$n.py $D/harness/tables/
+[ -f $w/findings/$id.json ] && cp $w/findings/$id.json $D/findings/
+[ -d $w/corpus/$id ] && rsync -a $w/corpus/$id/ $D/corpus/$id/
 echo merged $id
